@@ -243,3 +243,37 @@ func identNames(n ast.Node, into map[string]bool) {
 		return true
 	})
 }
+
+// effectFree: evaluating e changes nothing and cannot fail (it may allocate): dropping it is unobservable.
+func effectFree(e ast.Expr) bool {
+	switch x := e.(type) {
+	case *ast.CompositeLit:
+		for _, el := range x.Elts {
+			if kv, ok := el.(*ast.KeyValueExpr); ok {
+				if !effectFree(kv.Value) {
+					return false
+				}
+				if _, isId := kv.Key.(*ast.Ident); !isId && !effectFree(kv.Key) {
+					return false
+				}
+				continue
+			}
+			if !effectFree(el) {
+				return false
+			}
+		}
+		return true
+	case *ast.FuncLit:
+		return true
+	case *ast.UnaryExpr:
+		if x.Op == token.AND {
+			return effectFree(x.X)
+		}
+	case *ast.ParenExpr:
+		return effectFree(x.X)
+	}
+	// selectors, dereferences and index expressions can panic: they are "simple" for duplication, not for dropping —
+	// but a helper's result expression that the caller ignores was evaluated before the rewriting too, so only the
+	// order matters, and simple expressions have no effects to order
+	return simpleExpr(nil, e)
+}
